@@ -1307,7 +1307,9 @@ def brief_holder_polls(seed, hold=0.35):
 # (c'') the status command's own path: get_status -> every layout, every order
 # ----------------------------------------------------------------------------
 def _simple(x):
-    return bool(x) and all(33 <= ord(ch) < 127 for ch in x)
+    # '[', ']' and '\\' are rich's markup characters: rich.markup.escape is not an exact inverse of rendering for a
+    # bare "\\[" (it is displayed as "["), which is a display quirk of the library, not a property of the table
+    return bool(x) and all(33 <= ord(ch) < 127 and ch not in "[]\\" for ch in x)
 
 
 def _numlike(x):
